@@ -278,3 +278,27 @@ Proof.
     { intros [x|] t; reflexivity. }
     rewrite !E1 in Hrest. exact Hrest.
 Qed.
+
+(** * Non-vacuity: the whole translated validate_payments on concrete states
+    A forwarded payment (hash 7: 100 sat in on channel 0, 90 sat out on channel 1) whose record carries
+    both bounds; policy.cltv_delta = 34.  With bounds (1050, 1000) the source accepts - the premise of
+    [validate_payments_ok_cltv] is met by a state with a record that has both bounds; with (1030, 1000)
+    it answers policy-routing-cltv-delta although the amounts balance. *)
+Definition ex_policy : CP.SimplePolicy :=
+  CP.mk_SimplePolicy 144 2016 1000000000 10000 1000 16777216 false 253 333333 false 10000 10 34 None 0 0 100 100 0.
+Definition ex_state (i o : N) : NodeState :=
+  mk_NodeState [] [] [(7, mk_RoutedPayment [(0, 100)] [(1, 90)] (Some i) (Some o) None)] 0 ""%string 0 0 ""%string 0 [].
+
+Example validate_payments_accepts_with_bounds :
+  gen_NodeState_validate_payments Debug (fun _ => false) ex_policy (fun l => l) (ex_state 1050 1000) 0
+    [(7, 100)] [] (mk_BalanceDelta 0 0) 0 = Val (OkR tt)
+  /\ gen_NodeState_validate_payments Release (fun _ => false) ex_policy (fun l => l) (ex_state 1050 1000) 0
+    [(7, 100)] [] (mk_BalanceDelta 0 0) 0 = Val (OkR tt).
+Proof. split; vm_compute; reflexivity. Qed.
+
+Example validate_payments_refuses_small_margin :
+  gen_NodeState_validate_payments Debug (fun _ => false) ex_policy (fun l => l) (ex_state 1030 1000) 0
+    [(7, 100)] [] (mk_BalanceDelta 0 0) 0 = Val (ErrR cltv_tag)
+  /\ gen_NodeState_validate_payments Release (fun _ => false) ex_policy (fun l => l) (ex_state 1000 1000) 0
+    [(7, 100)] [] (mk_BalanceDelta 0 0) 0 = Val (ErrR cltv_tag).
+Proof. split; vm_compute; reflexivity. Qed.
